@@ -580,14 +580,14 @@ def part_a(R):
         by = {c['name']: c['length'] for c in cfg['contigs']}
         for c in CONTIGS[g]:
             lengths[(g, c)] = by[c]
-    todo = [('GRCh37', '1'), ('GRCh38', 'chr21'), ('GRCh38', 'chrM')] if quick else list(lengths)
+    todo = [('GRCh37', '1'), ('GRCh38', 'chrM')] if quick else list(lengths)
     # the Float64 lemma is attempted for these lengths only (each large length costs 31 FP queries)
     lemma_for = {lengths[k] for k in ([('GRCh38', 'chrM')] if quick else [('GRCh38', 'chrM'), ('GRCh37', '1'), ('GRCh38', 'chr1')])}
     lemma_cache = {}
     jobs, finishers = [], []
     t0 = time.time()
     for g, c in todo:
-        j, fin = inductive_contig(R, rep, g, c, lengths[(g, c)], lemma_cache, 30 if quick else 200)
+        j, fin = inductive_contig(R, rep, g, c, lengths[(g, c)], lemma_cache, 20 if quick else 200)
         jobs += j
         finishers.append((lengths[(g, c)], fin))
     ljobs = []
